@@ -596,8 +596,15 @@ func deleteLoopPrecedes(info *types.Info, fd *FuncDecl, at ast.Node, field *type
 			return true
 		}
 		for i, s := range bs.List {
-			if ast.Node(s) == at && i > 0 {
-				if rs, ok := bs.List[i-1].(*ast.RangeStmt); ok {
+			if ast.Node(s) != at {
+				continue
+			}
+			// the removal loop directly precedes or follows the decrement in the same statement list
+			for _, j := range []int{i - 1, i + 1} {
+				if j < 0 || j >= len(bs.List) {
+					continue
+				}
+				if rs, ok := bs.List[j].(*ast.RangeStmt); ok {
 					ast.Inspect(rs.Body, func(m ast.Node) bool {
 						if es, ok := m.(*ast.ExprStmt); ok {
 							for _, f := range storedFields(info, es) {
